@@ -38,7 +38,8 @@ func (wb *WriteBuffer) Add(entry Entry) bool {
 	wb.entries = append(wb.entries, entry)
 	wb.currentSize += entry.Size()
 
-	return wb.currentSize >= wb.maxSize
+	// the block header stores the entry count in 16 bits
+	return wb.currentSize >= wb.maxSize || len(wb.entries) >= 1<<16-1
 }
 
 // ShouldFlush returns true if the buffer has reached its maximum size
